@@ -208,15 +208,17 @@ def run_c01(tier, seed):
     return rec, {'c01': replay_2d, 'fitter': replay_fitter}
 
 
-def _build_conv_package(d, spec, filt_names, filt_wavs, widx):
-    """A per-file style package with ready-made convolved/ files (no SEDs needed for fitting)."""
+def _build_conv_package(d, spec, filt_names, filt_wavs, widx, units_=('mJy', 'au', 'micron')):
+    """A per-file style package with ready-made convolved/ files (no SEDs needed for fitting).  `units_`: the units the
+    files are STORED in (flux, aperture, wavelength); the content is the same physical table."""
     import os
     from sedfitter.convolved_fluxes import ConvolvedFluxes
     os.makedirs(os.path.join(d, 'convolved'), exist_ok=True)
+    fu, au_, wu = (getattr(u, x) for x in units_)
     for nm, wv, wi in zip(filt_names, filt_wavs, widx):
-        c = ConvolvedFluxes(wavelength=wv * u.micron, model_names=np.array(spec.par_names()),
-                            apertures=None if spec.apertures is None else spec.apertures * u.au,
-                            flux=spec.flux[spec.par_order][:, :, wi] * u.mJy, error=spec.error[spec.par_order][:, :, wi] * u.mJy)
+        c = ConvolvedFluxes(wavelength=(wv * u.micron).to(wu), model_names=np.array(spec.par_names()),
+                            apertures=None if spec.apertures is None else (spec.apertures * u.au).to(au_),
+                            flux=(spec.flux[spec.par_order][:, :, wi] * u.mJy).to(fu), error=(spec.error[spec.par_order][:, :, wi] * u.mJy).to(fu))
         c.write(os.path.join(d, 'convolved', nm + '.fits'))
     pkg._write_conf(d, spec, 1)
     pkg._write_params(d, spec, spec.par_order)
